@@ -59,13 +59,13 @@ def shallow_files():
                                                           os.path.join(pdir, "ecdsa", "curves.py")}
 
 
-def run_conc(make_bodies, preempt, choices, with_ecdsa=False, first=None, max_steps=3_000_000):
+def run_conc(make_bodies, preempt, choices, with_ecdsa=False, first=None, max_steps=60_000_000):
     """make_bodies(sched) -> list of zero-argument callables on FRESH objects.
     Returns (dry, conc, resolved pre-emptions): the same programs run one after another, then interleaved."""
     configure(with_ecdsa)
 
-    def build(pre, ch):
-        s = sched.Sched(preempt=[p for p in pre if isinstance(p, int)], choices=ch, max_steps=max_steps)
+    def build(pre, ch, cap=max_steps):
+        s = sched.Sched(preempt=[p for p in pre if isinstance(p, int)], choices=ch, max_steps=cap)
         s.preempt_local = {(p[1], p[2]) for p in pre if not isinstance(p, int)}
         for fn in make_bodies(s):
             s.spawn(fn)
@@ -76,7 +76,9 @@ def run_conc(make_bodies, preempt, choices, with_ecdsa=False, first=None, max_st
     dry.run(first=0)
     env.restore_registry()
     pre = resolve(preempt, max(dry.step, 1), dry)
-    conc = build(pre, choices)
+    # interleaving the same programs cannot need more steps than running them one after another (plus slack
+    # for retries): the cap is relative to the measured sequential run, never an absolute number
+    conc = build(pre, choices, 4 * dry.step + 100_000)
     conc.run(first=first)
     return dry, conc, pre
 
